@@ -446,7 +446,11 @@ def make_inspect_module(E):
             ann = E.eval(p.annotation, env) if p.annotation is not None else EMPTY
             params[p.arg] = SObj(_cls('Parameter'), {'name': p.arg, 'annotation': ann})
         return SObj(_cls('Signature'), {'parameters': params, 'return_annotation': EMPTY})
-    return M.ExternModule('inspect', dict(signature=Builtin('inspect.signature', signature),
+    pcls, scls = _cls('Parameter'), _cls('Signature')
+    pcls.dict['empty'] = EMPTY           # inspect.Parameter.empty is inspect.Signature.empty is inspect._empty
+    scls.dict['empty'] = EMPTY
+    return M.ExternModule('inspect', dict(Parameter=pcls, Signature=scls, _empty=EMPTY,
+                                          signature=Builtin('inspect.signature', signature),
                                           iscoroutinefunction=Builtin('iscoroutinefunction',
                                                                       lambda f: isinstance(f, ENG.PyFunc) and f.is_async)))
 
